@@ -231,6 +231,13 @@ class ModuleEnv(Env):
         return self.interp.module_lookup(self.modname, name)
 
 
+class OpaqueText:
+    """text of an f-string with a symbolic part: may be stored / raised, never inspected"""
+
+    def __repr__(self):
+        return "<text with symbolic parts>"
+
+
 class ReturnEx(Exception):
     def __init__(self, value):
         self.value = value
@@ -890,10 +897,19 @@ class Interp:
         if spec is None:
             # unroll while concrete
             n = 0
+            nsym = 0
             while True:
                 c = self.truth(self.eval_expr(s.test, env))
                 if not isinstance(c, bool):
-                    raise Unsupported(f"while loop #{ordinal} of {frame.func.qualname} with symbolic condition needs an invariant")
+                    # opt-in (tasks whose loops are bounded by the rank of concrete-length tuples): split the
+                    # path on the symbolic condition, with a hard bound on the number of symbolic iterations
+                    bound = getattr(self, "while_unroll_bound", 0)
+                    if not bound or self.term_mode:
+                        raise Unsupported(f"while loop #{ordinal} of {frame.func.qualname} with symbolic condition needs an invariant")
+                    nsym += 1
+                    if nsym > bound:
+                        raise Unsupported(f"while loop #{ordinal} of {frame.func.qualname}: more than {bound} iterations with a symbolic condition")
+                    c = self.ctx.branch(c.t if isinstance(c, SV) else c, f"L{s.lineno}w")
                 if not c:
                     break
                 n += 1
@@ -1047,7 +1063,35 @@ class Interp:
             raise PyRaise("NameError", e.id)
 
     def ex_JoinedStr(self, e, env):
-        return "<fstring>"
+        """f-string: formatted for real when every interpolated value is concrete (python semantics of
+        conversion and format spec); otherwise an opaque text that may only be carried around (messages)"""
+        parts = []
+        for v in e.values:
+            if isinstance(v, ast.Constant):
+                parts.append(str(v.value))
+                continue
+            try:
+                val = simp(self.eval_expr(v.value, env))
+            except (Unsupported, PyRaise):
+                return OpaqueText()
+            if is_sym(val) or not isinstance(val, (str, int, float, bool, tuple, list, type(None))) or (isinstance(val, (tuple, list)) and any(is_sym(x) or not isinstance(x, (str, int, float, bool, type(None))) for x in val)):
+                return OpaqueText()
+            if v.conversion == ord("r"):
+                val = repr(val)
+            elif v.conversion == ord("s"):
+                val = str(val)
+            elif v.conversion == ord("a"):
+                val = ascii(val)
+            spec = ""
+            if v.format_spec is not None:
+                spec = self.ex_JoinedStr(v.format_spec, env)
+                if isinstance(spec, OpaqueText):
+                    return OpaqueText()
+            try:
+                parts.append(format(val, spec))
+            except (ValueError, TypeError) as ex:
+                raise PyRaise(type(ex).__name__, str(ex), e.lineno)
+        return "".join(parts)
 
     def ex_Tuple(self, e, env):
         r = self._eval_elts(e.elts, env, "tuple")
